@@ -315,7 +315,24 @@ pub fn run(out: &mut Out, tier: &str, seed: u64, _scratch: &str) {
         out.case(&format!("c01 {kind} {args_enc} {enc} {pyfile}"), &real);
     }
     let _ = std::fs::remove_dir_all("/verif/.build/batch/c01");
-    out.meta(&serde_json::json!({"programs": cases.len(), "outcome_histogram": hist}));
+    // second stream: feature programs beyond the core fragment (oracle only)
+    let reps = if tier == "thorough" { 8 } else { 2 };
+    let mut feats = Vec::new();
+    for _ in 0..reps {
+        feats.extend(crate::c01feat::programs(&mut rng));
+    }
+    let fcases: Vec<Case> = feats.iter().map(|f| Case { name: String::new(), source: f.incan.clone() }).collect();
+    let fouts = runner::run_batch("/verif/.build/batch/c01f", "/verif/.build/batch-target", &fcases);
+    for (i, (f, o)) in feats.iter().zip(fouts.iter()).enumerate() {
+        let pyfile = format!("{pydir}/f{i}.py");
+        std::fs::write(&pyfile, &f.python).expect("write py");
+        std::fs::write(format!("{pydir}/f{i}.incn"), &f.incan).expect("write incn");
+        let real = canon(o);
+        *hist.entry(format!("feat:{}", real.split(' ').next().unwrap_or("").split(':').next().unwrap_or(""))).or_insert(0) += 1;
+        out.case(&format!("c01 feat {} - {pyfile}", f.name), &real);
+    }
+    let _ = std::fs::remove_dir_all("/verif/.build/batch/c01f");
+    out.meta(&serde_json::json!({"programs": cases.len(), "feature_programs": feats.len(), "outcome_histogram": hist}));
 }
 
 // =====================================================================================================================
@@ -359,7 +376,40 @@ pub fn c02_probes() -> Vec<(&'static str, String)> {
         ("nested-retype-of-outer-variable", p("    mut x = 1\n    if True:\n        x = \"s\"\n    print(1)\n")),
         ("append-while-iterating", p("    mut ys = [1, 2]\n    for v in ys:\n        if v > 5:\n            ys.append(v)\n    print(len(ys))\n")),
         ("derive-partialord-alone", "@derive(PartialOrd)\nmodel M:\n    a: int\n\ndef main() -> None:\n    m = M(a=1)\n    print(1)\n".to_string()),
+        ("mutating-builtin-on-immutable-collection", p("    xs = [1]\n    xs.append(2)\n    print(len(xs))\n")),
         ("type-name-as-value-argument", "type Pos = newtype int\n\ndef show(p: Pos) -> None:\n    print(1)\n\ndef main() -> None:\n    f = Pos\n    show(f)\n".to_string()),
+    ]
+}
+
+/// Ill-typed programs: the checker must reject them (if it accepted one, the build would fail: accept ⇒ builds).
+pub fn c02_negative() -> Vec<(&'static str, String)> {
+    let p = |body: &str| format!("def helper_ok(v: int) -> Result[int, str]:\n    return Ok(v)\n\ndef takes_int(v: int) -> int:\n    return v\n\nmodel Pt:\n    x: int\n    y: int\n\n{body}\ndef main() -> None:\n    print(1)\n");
+    vec![
+        ("bare-return-in-int-function", p("def f(n: int) -> int:\n    if n > 0:\n        return\n    return 1\n")),
+        ("return-value-in-none-function", p("def f(n: int) -> None:\n    return n\n")),
+        ("return-str-in-int-function", p("def f(n: int) -> int:\n    return \"s\"\n")),
+        ("if-condition-not-bool", p("def f(n: int) -> int:\n    if n:\n        return 1\n    return 0\n")),
+        ("while-condition-not-bool", p("def f(n: int) -> int:\n    while n:\n        return 1\n    return 0\n")),
+        ("assign-str-to-int-annotation", p("def f() -> int:\n    v: int = \"s\"\n    return 1\n")),
+        ("argument-wrong-type", p("def f() -> int:\n    return takes_int(\"s\")\n")),
+        ("try-in-int-function", p("def f() -> int:\n    v = helper_ok(1)?\n    return v\n")),
+        ("try-on-int", p("def f() -> Result[int, str]:\n    v = 5?\n    return Ok(v)\n")),
+        ("missing-field", p("def f() -> int:\n    q = Pt(x=1)\n    return q.x\n")),
+        ("unknown-field-access", p("def f() -> int:\n    q = Pt(x=1, y=2)\n    return q.z\n")),
+        ("unknown-method", p("def f() -> int:\n    q = Pt(x=1, y=2)\n    return q.nope()\n")),
+        ("reassign-immutable", p("def f() -> int:\n    v = 1\n    v = 2\n    return v\n")),
+        ("reassign-immutable-in-loop", p("def f() -> int:\n    v = 1\n    for i in range(3):\n        v = v + i\n    return v\n")),
+        ("add-int-and-str", p("def f() -> int:\n    return 1 + \"s\"\n")),
+        ("compare-int-and-str", p("def f() -> bool:\n    return 1 < \"s\"\n")),
+        ("index-with-str", p("def f(xs: List[int]) -> int:\n    return xs[\"a\"]\n")),
+        ("match-missing-none", p("def f(o: Option[int]) -> int:\n    match o:\n        Some(v) => return v\n    return 0\n")),
+        ("trait-parameter-gets-int", "trait Named:\n    def name(self) -> str: ...\n\nclass Dog with Named:\n    n: str\n\n    def name(self) -> str:\n        return self.n\n\ndef greet(who: Named, times: int) -> None:\n    print(who.name())\n\ndef main() -> None:\n    greet(5, 1)\n".to_string()),
+        ("trait-parameter-gets-non-adopter", "trait Named:\n    def name(self) -> str: ...\n\nclass Dog with Named:\n    n: str\n\n    def name(self) -> str:\n        return self.n\n\nclass Cat:\n    n: str\n\ndef greet(who: Named, times: int) -> None:\n    print(who.name())\n\ndef main() -> None:\n    greet(Cat(n=\"c\"), 1)\n".to_string()),
+        ("argument-after-trait-parameter-wrong", "trait Named:\n    def name(self) -> str: ...\n\nclass Dog with Named:\n    n: str\n\n    def name(self) -> str:\n        return self.n\n\ndef greet(who: Named, times: int) -> None:\n    print(who.name())\n\ndef main() -> None:\n    greet(Dog(n=\"d\"), \"three\")\n".to_string()),
+        ("mutating-method-on-immutable", "class C:\n    n: int\n\n    def bump(mut self) -> None:\n        self.n = self.n + 1\n\ndef main() -> None:\n    c = C(n=1)\n    c.bump()\n    print(c.n)\n".to_string()),
+        // last: before the fix these overflowed the stack in lowering (the harness process dies with them)
+        ("class-extends-itself", "class A extends A:\n    x: int\n\ndef main() -> None:\n    a = A(x=1)\n    print(a.x)\n".to_string()),
+        ("cyclic-extends-chain", "class A extends B:\n    x: int\n\nclass B extends A:\n    y: int\n\ndef main() -> None:\n    a = A(x=1, y=2)\n    print(a.x)\n".to_string()),
     ]
 }
 
@@ -416,6 +466,41 @@ pub fn run_c02(out: &mut Out, tier: &str, seed: u64, _scratch: &str) {
         let real = if verdicts[i] == "accept" { format!("accept {build}") } else { verdicts[i].clone() };
         let key = if i < n_core { format!("core:{}", real.split(' ').take(2).collect::<Vec<_>>().join("_")) } else { format!("probe:{}", real.split(' ').take(2).collect::<Vec<_>>().join("_")) };
         *hist.entry(key).or_insert(0) += 1;
+        out.case(req, &real);
+    }
+    let _ = std::fs::remove_dir_all("/verif/.build/batch/c02");
+    // ill-typed corpus + derive subsets: whatever the checker accepts must build
+    let mut extra_reqs: Vec<String> = Vec::new();
+    let mut extra_cases: Vec<Case> = Vec::new();
+    for (name, src) in c02_negative() {
+        extra_reqs.push(format!("c02 negative {name}"));
+        extra_cases.push(Case { name: String::new(), source: src });
+    }
+    let all = ["Eq", "PartialEq", "Ord", "PartialOrd", "Hash", "Serialize", "Deserialize", "Clone", "Debug", "Default"];
+    let n_sub = if tier == "thorough" { 160 } else { 28 };
+    for k in 0..n_sub {
+        let mask = if k < 11 { if k == 0 { 0 } else { 1u64 << (k - 1) } } else { rng.below(1 << all.len()) };
+        let mut written: Vec<&str> = all.iter().enumerate().filter(|(i, _)| mask >> i & 1 == 1).map(|(_, d)| *d).collect();
+        if !written.is_empty() { let rot = rng.below(written.len() as u64) as usize; written.rotate_left(rot); }
+        let is_class = k % 3 == 2;
+        let kw = if is_class { "class" } else { "model" };
+        let deco = if written.is_empty() { String::new() } else { format!("@derive({})\n", written.join(", ")) };
+        let method = if is_class { "\n    def tag(self) -> int:\n        return self.a\n" } else { "" };
+        let src = format!("{deco}{kw} M:\n    a: int\n    s: str\n    xs: List[int]\n{method}\ndef main() -> None:\n    m = M(a=1, s=\"x\", xs=[1])\n    print(m.a)\n");
+        extra_reqs.push(format!("c02 derive {kw} {}", if written.is_empty() { "-".to_string() } else { written.join(",") }));
+        extra_cases.push(Case { name: String::new(), source: src });
+    }
+    let ev: Vec<String> = extra_cases.iter().map(|c| check_verdict(&c.source)).collect();
+    let eo = runner::run_batch("/verif/.build/batch/c02", "/verif/.build/batch-target", &extra_cases);
+    for (i, req) in extra_reqs.iter().enumerate() {
+        let build = match &eo[i] {
+            Outcome::Ran { .. } => "built".to_string(),
+            Outcome::RustcError(m) => format!("rustc-error {}", m.replace(' ', "_").chars().take(70).collect::<String>()),
+            Outcome::Rejected(stage, m) => if stage == "check" { "-".to_string() } else { format!("{stage}-error {}", m.replace(' ', "_").chars().take(70).collect::<String>()) },
+            Outcome::Harness(m) => format!("harness {m}"),
+        };
+        let real = if ev[i] == "accept" { format!("accept {build}") } else { ev[i].clone() };
+        *hist.entry(format!("{}:{}", req.split(' ').nth(1).unwrap_or(""), real.split(' ').take(2).collect::<Vec<_>>().join("_"))).or_insert(0) += 1;
         out.case(req, &real);
     }
     let _ = std::fs::remove_dir_all("/verif/.build/batch/c02");
